@@ -123,12 +123,98 @@ def main(ctx):
         return
     cases = gen_cases(ctx)
     vlib.seq_correspondence(ctx, hcmd, dcmd, cases, nontrivial=nontrivial, keep_prefix=1)
+    if (ctx.broken and not any(f for _, f in ctx.violations)) or not ctx.quick:
+        long_history_search(ctx, hcmd)
     ctx.cov["exhaustive"] = True
     ctx.cov["explanation"] = ("exhaustive=true refers to the bounded timeline space described in rule; "
                               "the theorems are unbounded")
 
 
+# --------------------------------------------------------------------------- long-history search
+def spec_judge(ops, out):
+    """Spec-level monitor in Python (mirrors MgModel.C19.specVerdict) for op lists containing the
+    search-only `ff` operation, which the Lean driver does not model: the verdict of every request
+    must be `fewer than n recorded requests a with now - a < t`."""
+    it = ops[0].split()
+    unit = 10 ** 9 if it[1] == "ns" else int(it[1])
+    t, n, fwd = int(it[2]) * unit, int(it[3]), int(it[4])
+    hist = [-fwd * unit] * n
+    for o, r in zip(ops[1:], out[1:]):
+        a = o.split()
+        if a[0] == "ff":
+            cnt, start, step = int(a[1]), int(a[2]), int(a[3])
+            if step < t or cnt < 1:
+                return None                      # closed form below needs every request admitted
+            if r != "ok %d" % cnt:
+                return "fast-forward of %d requests spaced >= t apart admitted %s" % (cnt, r)
+            k = min(cnt, n + 1)
+            hist = hist[-(n + 1):] + [start + (cnt - k + i) * step for i in range(k)]
+            continue
+        if a[0] == "dump":
+            continue
+        now = int(a[1])
+        want = sum(1 for x in hist if now - x < t) < n
+        if a[0] in ("cau", "cfu", "check"):
+            if r not in ("0", "1"):
+                return "unexpected answer %r to %s" % (r, o)
+            if (r == "1") != want:
+                return ("request at %d: controller says %s, the sliding window (%d of %d recorded requests "
+                        "within t) says %s" % (now, "ADMIT" if r == "1" else "REFUSE",
+                                               sum(1 for x in hist if now - x < t), n,
+                                               "ADMIT" if want else "REFUSE"))
+        if a[0] == "cfu" or a[0] == "update" or (a[0] == "cau" and want):
+            hist = (hist + [now])[-(4 * n + 8):]
+    return None
+
+
+def long_history_search(ctx, hcmd):
+    """SEARCH (DESIGN §2.6), run when the tie is broken without a concrete failing input (and in the
+    thorough tier): states that only ~2^32 recorded requests reach. The harness fast-forwards the
+    real code through 2^32 - j requests spaced t apart (all admitted), then short timelines with every
+    call kind are judged by the sliding-window specification."""
+    rng = ctx.rng
+    cases = []
+    for uname, unit in (("ns", 10 ** 9), ("1000", 1000)):
+        for n in ((3, 5, 6) if uname == "ns" else (3,)):
+            for j in (2, n + 1):
+                t = unit
+                cnt = (1 << 32) - j
+                ops = ["init %s 1 %d 0" % (uname, n), "ff %d %d %d" % (cnt, t, t)]
+                now = t + cnt * t
+                for k in range(4 * n + 4):
+                    now += rng.choice([t // 2, t // 2, t // 3, t, 0]) if k else t
+                    ops.append("%s %d" % (rng.choice(["cfu", "cau", "cfu"]), now))
+                ops.append("dump")
+                cases.append(ops)
+    res = vlib.run_cases(hcmd, cases, timeout=1600, chunk=1)
+    nbad = 0
+    for ops, a in zip(cases, res):
+        msg = ("crash: " + a["crash"][:800]) if a["crash"] else spec_judge(ops, a["out"])
+        if msg:
+            nbad += 1
+            if nbad <= 2:
+                ctx.violation({"kind": "property-fails-on-implementation", "tie": "long-history-search",
+                               "ops": ops, "what": msg, "implementation": a["out"],
+                               "broken_obligations": ctx.broken}, found_input=True)
+    ctx.cov["ties"]["long_history_search"] = {"cases": len(cases), "requests_each": "2^32 - j, then 4n+4",
+                                              "property_failures": nbad}
+    ctx.cov["evaluations"] += len(cases)
+
+
 def replay(ctx, path):
     hcmd, dcmd = build(ctx)
     vlib.lake_build(["drv_c19"])
+    r = json.load(open(path))
+    ops = r.get("ops") or []
+    if any(o.startswith("ff ") for o in ops):
+        a = vlib.run_one(hcmd, ops, timeout=1600)
+        print("ops:", ops)
+        print("implementation:", a["out"], "crash:", a["crash"])
+        msg = ("crash: " + a["crash"][:800]) if a["crash"] else spec_judge(ops, a["out"])
+        if msg:
+            print(msg)
+            print("VIOLATION property=C19 replay=%s" % path)
+            return 1
+        print("replay passes on the current tree")
+        return 0
     return vlib.replay_file(ctx, path, hcmd, dcmd)
